@@ -245,3 +245,19 @@ Example tx_accumulate_hyps :
 Proof.
   split; [vm_compute; reflexivity|]. split; [vm_compute; reflexivity|]. split; vm_compute; reflexivity.
 Qed.
+
+(* the hypotheses of the solve()-level shape theorems are met: period 2001 (position 1) in the middle of a run over
+   the three periods; the earlier period returns, the period itself is solved, all Traces start empty *)
+Definition tx_run1 :=
+  traced_run_periods float PrimFloat.sub PrimFloat.abs PrimFloat.ltb fisfin fzero tx_cfg (TFlag true) false
+                     (s_ev 3 tx_scripts) (s_before 3 tx_scripts) (s_after 3 tx_scripts) Z tx_desc (tx_opts 0 5)
+                     [(0, 2000)] tx_state tx_tr0 [].
+Example tx_solve_shape_hyps :
+  snd tx_run1 = Ret [(2000, 0, true)] /\
+  snd (f_traced_solve_t tx_scripts tx_cfg (TFlag true) false tx_desc (tx_opts 0 5) 1 (fst (fst tx_run1)) (snd (fst tx_run1))) = Ret true /\
+  is_empty float (nth 1 tx_tr0 tx_e) = true /\ py_pos (length tx_tr0) 1 = Some 1%nat /\
+  (forall t', In t' (map fst [(0, 2000)] ++ map fst [(2, 2002)]) -> py_pos (length tx_tr0) t' <> Some 1%nat).
+Proof.
+  split; [vm_compute; reflexivity|]. split; [vm_compute; reflexivity|]. split; [reflexivity|]. split; [reflexivity|].
+  intros t' [<-|[<-|[]]]; vm_compute; discriminate.
+Qed.
